@@ -1346,7 +1346,8 @@ fn run_crash_concurrent(ctx: &mut Ctx, scn: &StoreScn, power: bool, rel: &str) {
             return;
         }
     };
-    let results: Arc<StdMutex<Vec<(usize, usize, Option<(usize, Option<Vec<u8>>)>, Option<String>)>>> = Arc::new(StdMutex::new(Vec::new()));
+    #[allow(clippy::type_complexity)]
+    let results: Arc<StdMutex<Vec<(usize, usize, Option<(usize, Option<Vec<u8>>)>, Option<String>, u64, u64)>>> = Arc::new(StdMutex::new(Vec::new()));
     let mut joins = Vec::new();
     for (ti, ops) in scn.threads.iter().enumerate() {
         let h = store.h.clone();
@@ -1354,8 +1355,13 @@ fn run_crash_concurrent(ctx: &mut Ctx, scn: &StoreScn, power: bool, rel: &str) {
         let keys = scn.keys.clone();
         let results = results.clone();
         joins.push(simrt::spawn(&format!("client-{}", ti), simrt::sched::DEFAULT_STACK, move || {
+            let (sim, _) = simrt::current().unwrap();
             for (i, op) in ops.iter().enumerate() {
                 fsim::set_op_tag(tag_of(ti, i));
+                // an operation's file-system calls need not be made by its own thread (a group
+                // commit leader appends and syncs for its followers): what counts is the position
+                // of the global I/O log at the invocation and at the return
+                let seq_inv = io_seq(sim);
                 let (effect, err) = match op {
                     Op::Set(k, v) => {
                         let val = v.bytes();
@@ -1379,7 +1385,8 @@ fn run_crash_concurrent(ctx: &mut Ctx, scn: &StoreScn, power: bool, rel: &str) {
                     _ => (None, None),
                 };
                 fsim::set_op_tag(0);
-                results.lock().unwrap().push((ti, i, effect, err));
+                let seq_ret = io_seq(sim);
+                results.lock().unwrap().push((ti, i, effect, err, seq_inv, seq_ret));
             }
         }));
     }
@@ -1391,25 +1398,14 @@ fn run_crash_concurrent(ctx: &mut Ctx, scn: &StoreScn, power: bool, rel: &str) {
     ctx.join_others();
     let mut rs: Vec<_> = results.lock().unwrap().drain(..).collect();
     rs.sort_by_key(|r| (r.0, r.1));
-    if let Some((t, i, _, Some(e))) = rs.iter().find(|r| r.3.is_some()) {
+    if let Some((t, i, _, Some(e), _, _)) = rs.iter().find(|r| r.3.is_some()) {
         ctx.viol("op-failed", format!("t{}#{} returned {} with no fault injected", t, i, e), "");
         return;
     }
-    // records of each operation, by tag
-    let spans: BTreeMap<u64, (u64, u64)> = fsim::with_fs(ctx.sim, |fs| {
-        let mut m: BTreeMap<u64, (u64, u64)> = BTreeMap::new();
-        for r in &fs.log {
-            if r.tag != 0 && r.seq <= last {
-                let e = m.entry(r.tag).or_insert((r.seq, r.seq));
-                e.1 = r.seq;
-            }
-        }
-        m
-    });
     let mut hist = Vec::new();
-    for (t, i, effect, _) in rs {
-        if let Some((a, b)) = spans.get(&tag_of(t, i)) {
-            hist.push(OpRec { idx: i, thread: t, first_seq: *a, last_seq: *b, effect, ok: true });
+    for (t, i, effect, _, seq_inv, seq_ret) in rs {
+        if seq_ret > seq_inv {
+            hist.push(OpRec { idx: i, thread: t, first_seq: seq_inv + 1, last_seq: seq_ret.min(last), effect, ok: true });
         }
     }
     ctx.sim.probe("concurrent_crash_workload");
@@ -1574,7 +1570,16 @@ fn crash_enumerate(ctx: &mut Ctx, scn: &StoreScn, rel: &str, hist: Vec<OpRec>, l
         // before the kill is still there (on a share of the points)
         if power && images % 6 == 3 {
             images += 1;
-            check_kill_then_power(ctx, scn, &files, &want, &inflight, k);
+            check_kill_then_power(ctx, scn, &files, &want, &inflight, k, false);
+            if !ctx.out.violations.is_empty() {
+                ctx.out.evaluations = images;
+                return;
+            }
+        }
+        // the same with a power loss as the first failure (two power losses in one lineage)
+        if power && images % 6 == 5 {
+            images += 1;
+            check_kill_then_power(ctx, scn, &files, &want, &inflight, k, true);
             if !ctx.out.violations.is_empty() {
                 ctx.out.evaluations = images;
                 return;
@@ -1587,15 +1592,17 @@ fn crash_enumerate(ctx: &mut Ctx, scn: &StoreScn, rel: &str, hist: Vec<OpRec>, l
     remove_dir(ctx, &rel);
 }
 
-fn check_kill_then_power(ctx: &mut Ctx, scn: &StoreScn, files: &[(String, u64, u64, usize)], want: &Model, inflight: &[(usize, Option<Vec<u8>>)], k: u64) {
+fn check_kill_then_power(ctx: &mut Ctx, scn: &StoreScn, files: &[(String, u64, u64, usize)], want: &Model, inflight: &[(usize, Option<Vec<u8>>)], k: u64, first_is_power_loss: bool) {
     let keys = &scn.keys;
-    ctx.sim.probe("kill_then_restart_then_power_loss");
-    // the directory a kill at k leaves: every written byte; what was synced at k stays known
+    ctx.sim.probe(if first_is_power_loss { "power_loss_then_restart_then_power_loss" } else { "kill_then_restart_then_power_loss" });
+    // the directory a kill at k leaves: every written byte, and what was synced at k stays known;
+    // after a power loss at k: only what was synced
     let mut img = DirImage::new();
     let mut synced: BTreeMap<String, u64> = BTreeMap::new();
     fsim::with_fs(ctx.sim, |fs| {
         for (name, len, syn, inc) in files {
-            img.insert(name.clone(), fs.incs[*inc].data[..*len as usize].to_vec());
+            let keep = if first_is_power_loss { *syn } else { *len };
+            img.insert(name.clone(), fs.incs[*inc].data[..keep as usize].to_vec());
             synced.insert(name.clone(), *syn);
         }
     });
@@ -1654,7 +1661,8 @@ fn check_kill_then_power(ctx: &mut Ctx, scn: &StoreScn, files: &[(String, u64, u
                             ctx.viol(
                                 "recovery-mismatch",
                                 format!(
-                                    "kill after I/O record {}, restart with sync=always, writes and a merge, then power loss: key {} reads {}; {} [files after the power loss: {}]",
+                                    "{} after I/O record {}, restart with sync=always, writes and a merge, then power loss: key {} reads {}; {} [files after the power loss: {}]",
+                                    if first_is_power_loss { "power loss" } else { "kill" },
                                     k,
                                     hex(key),
                                     hexo(&got),
@@ -2227,14 +2235,37 @@ pub fn run_fault_one(ctx: &mut Ctx, scn: &StoreScn) {
             if let Some(s) = store.as_ref() {
                 for (j, key) in keys.iter().enumerate() {
                     let v = Val { tag: 880_000 + j as u32, len: 10 }.bytes();
-                    if set(&s.h, key, v.clone()).is_ok() {
-                        model.insert(key.clone(), v);
+                    // the rest of an episode can still fail one of these: an acknowledged operation
+                    // settles its key, a failed one adds one more alternative
+                    match set(&s.h, key, v.clone()) {
+                        Ok(()) => {
+                            model.insert(key.clone(), v);
+                            uncertain.remove(key);
+                        }
+                        Err(_) => {
+                            let acked = model.get(key).cloned();
+                            let alts = uncertain.entry(key.clone()).or_insert_with(|| vec![acked]);
+                            if !alts.contains(&Some(v.clone())) {
+                                alts.push(Some(v));
+                            }
+                        }
                     }
-                    if j % 2 == 1 && del(&s.h, key).is_ok() {
-                        model.remove(key);
+                    if j % 2 == 1 {
+                        match del(&s.h, key) {
+                            Ok(_) => {
+                                model.remove(key);
+                                uncertain.remove(key);
+                            }
+                            Err(_) => {
+                                let acked = model.get(key).cloned();
+                                let alts = uncertain.entry(key.clone()).or_insert_with(|| vec![acked]);
+                                if !alts.contains(&None) {
+                                    alts.push(None);
+                                }
+                            }
+                        }
                     }
                 }
-                uncertain.clear();
                 let seq2 = io_seq(ctx.sim);
                 ctx.sim.sleep_thread(ctx.me, 3 * scn.cfg.check_interval_ms * 1_000_000 + 1_000_000);
                 let merged = fsim::with_fs(ctx.sim, |fs| fs.log.iter().any(|r| r.seq > seq2 && r.res >= 0 && r.op == IoOp::Create && fs.path_name(r.path).ends_with(".hint")));
@@ -2244,7 +2275,7 @@ pub fn run_fault_one(ctx: &mut Ctx, scn: &StoreScn) {
                 }
                 for key in keys {
                     match get(&s.h, key) {
-                        Ok(g) if g == model.get(key).cloned() => {}
+                        Ok(g) if uncertain.get(key).map(|alts| alts.contains(&g)).unwrap_or_else(|| g == model.get(key).cloned()) => {}
                         other => {
                             ctx.viol("wrong-after-fault", format!("after the background fault and a later merge key {} reads {:?}; acknowledged value is {}", hex(key), other.map(|v| hexo(&v)), hexo(&model.get(key).cloned())), "");
                             break;
